@@ -32,6 +32,38 @@ func main() {
 		cmdFn(os.Args[2:])
 	case "list":
 		cmdList(os.Args[2:])
+	case "mods":
+		w := mustWorld()
+		for _, k := range os.Args[2:] {
+			f := w.Funcs[k]
+			if f == nil {
+				fmt.Println("no such function", k)
+				continue
+			}
+			ms := w.mods.Of(f)
+			fmt.Printf("%s: top=%v fams=%d\n", k, ms.Top, len(ms.Fams))
+			if ms.Top {
+				// explain: direct callees that are Top
+				if n := w.CG.Nodes[f]; n != nil {
+					seen := map[string]bool{}
+					for _, e := range n.Out {
+						c := e.Callee.Func
+						cm := w.mods.Of(c)
+						if cm.Top && !seen[FuncKey(c)] {
+							seen[FuncKey(c)] = true
+							fmt.Printf("   top callee: %s (in module: %v)\n", FuncKey(c), w.InModule(c))
+						}
+					}
+				}
+			} else {
+				var fs []string
+				for fam := range ms.Fams {
+					fs = append(fs, fam)
+				}
+				sort.Strings(fs)
+				fmt.Println("  ", strings.Join(fs, "\n   "))
+			}
+		}
 	case "check":
 		os.Exit(cmdCheck(os.Args[2:]))
 	case "relock":
